@@ -33,7 +33,7 @@ def gen_case(rng):
     return dict(nin=nin, alpha_lim=alpha_lim, beta_lim=beta_lim, surr_lim=surr_lim, kpl=kpl, domains=domains,
                 norms_in=norms_in, nsteps=rng.randint(3, 9), fseed=rng.randrange(10 ** 9),
                 vectorized=rng.random() < 0.5, cost=rng.choice(['none', 'const', 'alpha']),
-                failing=rng.random() < 0.3)
+                failing=rng.random() < 0.3, shrink=rng.random() < 0.4)
 
 
 def cost_fn(kind):
@@ -82,6 +82,7 @@ def run_component_case(ctx, res, case, lines, post):
     seen_calls = {}
     zero = ((0,) * na, (0,) * (nd + len(case['surr_lim'])))
     nxt = zero
+    tightened = set()
     for step in range(case['nsteps'] + 1):
         a, b = nxt
         # the batch of indices as activate_index builds it
@@ -102,6 +103,14 @@ def run_component_case(ctx, res, case, lines, post):
             if xg[n][:len(old)] != old:
                 res.failures.append({'kind': 'grid-points-moved', 'input': {**case, 'history': list(hist)},
                                      'observed': xg[n], 'expected_prefix': old})
+        # (2b) every knot chosen in this activation lies inside the domain in force now
+        for n, v in zip(names, in_vars):
+            lb, ub = v.get_domain()
+            for z in xg[n][len(grids_prev.get(n, [])):]:
+                xp = cc.scalar(v.denormalize(np.atleast_1d(np.float64(z))))
+                if not (lb - 1e-9 * max(1.0, abs(lb)) <= xp <= ub + 1e-9 * max(1.0, abs(ub))):
+                    res.failures.append({'kind': 'new-knot-outside-domain-in-force', 'input': {**case, 'history': list(hist)},
+                                         'observed': {'input': n, 'knot': xp, 'domain': [lb, ub]}})
         grids_prev = xg
         # decode calls of this activation to (alpha, coord)
         evals = []
@@ -125,6 +134,8 @@ def run_component_case(ctx, res, case, lines, post):
             seen_calls.setdefault(key, step)
             # (2) inside the domain in force
             for d, v in enumerate(in_vars):
+                if d in tightened:
+                    continue    # knots chosen before the tightening never move (checked above): only (2b) applies to them
                 lb, ub = v.get_domain()
                 if not (lb - 1e-12 * abs(lb) - 1e-300 <= x[d] <= ub + 1e-12 * abs(ub) + 1e-300):
                     res.failures.append({'kind': 'evaluated-outside-domain', 'input': {**case, 'history': list(hist)},
@@ -139,6 +150,17 @@ def run_component_case(ctx, res, case, lines, post):
         if not cands:
             break
         nxt = rng.choice(cands)
+        # the domain of an input may be TIGHTENED between activations (Variable.update_domain(override=True), as fit() does with
+        # estimated bounds): later knots must lie inside the domain then in force. Only inputs whose normalisation does not
+        # depend on the domain (none / linear) are tightened, so that the stored normalised knots keep their meaning.
+        if case.get('shrink') and step >= 1 and rng.random() < 0.5:
+            d = rng.randrange(nin)
+            if case['norms_in'][d] != 'minmax':
+                lb, ub = in_vars[d].get_domain()
+                w = ub - lb
+                in_vars[d].update_domain((lb + rng.choice([0.15, 0.3]) * w, ub - rng.choice([0.1, 0.25]) * w), override=True)
+                tightened.add(d)
+                res.hit('domain-tightened-between-activations')
     # (3) every stored pair is the model's output at the decoded grid point (normalised units)
     td = comp.training_data
     for al, cmap in td.yi_map.items():
@@ -211,6 +233,31 @@ def run_system_case(ctx, res, seed, cost_kind):
             res.failures.append({'kind': 'model-evaluated-twice', 'signature': 'none',
                                  'input': {'seed': seed, 'cost_profile': cost_kind, 'component': cname}})
     tot = sum(len(r.calls) for r in (r1, r2))
+    if cost_kind in ('const', 'alpha'):
+        # a second training history after clear(): the model now reports other costs; the report must be about THIS history
+        system.clear()
+        newcost = lambda alpha, k: 7.0 + 3.0 * sum(alpha)   # noqa: E731
+        for rec in (r1, r2):
+            rec.calls.clear(); rec.cost = newcost
+        system.fit(max_iter=rng.randint(3, 6), num_refine=40, max_tol=-np.inf)
+        cost_alloc, eval_alloc, cost_cum, eval_cum = system.get_allocation()
+        for cname, rec in (('c1', r1), ('c2', r2)):
+            truth_n, truth_c = {}, {}
+            for k, (al, x, y) in enumerate(rec.calls):
+                truth_n[al] = truth_n.get(al, 0) + 1
+                truth_c[al] = truth_c.get(al, 0.0) + newcost(al, k)
+            for al in truth_n:
+                rep_n = eval_alloc.get(cname, {}).get(al, 0)
+                rep_c = cost_alloc.get(cname, {}).get(al, 0.0)
+                if rep_n != truth_n[al] or abs(rep_c - truth_c[al]) > 1e-9 * max(1.0, truth_c[al]):
+                    res.failures.append({'kind': 'allocation-report-after-clear-and-retrain-differs-from-ground-truth',
+                                         'signature': 'none',
+                                         'input': {'seed': seed, 'cost_profile': cost_kind, 'component': cname,
+                                                   'alpha': list(al), 'second_history_cost': '7 + 3*sum(alpha)'},
+                                         'observed': {'evals': rep_n, 'cost': rep_c},
+                                         'expected': {'evals': truth_n[al], 'cost': truth_c[al]}})
+        res.hit('clear-and-retrain-with-other-costs')
+        tot = sum(len(r.calls) for r in (r1, r2))
     if int(eval_cum[-1]) != tot and cost_kind != 'varying':
         res.failures.append({'kind': 'cumulative-evaluation-count-wrong', 'signature': 'none',
                              'input': {'seed': seed, 'cost_profile': cost_kind},
@@ -308,12 +355,12 @@ def run(ctx: core.Ctx, only=None) -> core.Result:
     res = core.Result()
     res.rule = ('(A) scripted random admissible histories on real Components with 0-2 model-, 1-3 data-, 0-2 '
                 'surrogate-fidelity dims, knots_per_level 1-3, normalised inputs, serial and vectorised models (30 %: serial models that '
-                'RAISE at up to 3 evaluations — failed points stay NaN and are never requested again), logging every '
+                'RAISE at up to 3 evaluations — failed points stay NaN and are never requested again; 40 %: input domains TIGHTENED between activations), logging every '
                 'model call; (B) adaptive System.fit on a 2-component chain with cost profiles none/const/per-alpha/'
-                'per-call-varying and get_allocation vs ground truth; (C) components with a compressed field input (latent '
+                'per-call-varying and get_allocation vs ground truth (const/per-alpha: also after clear() and a second training history with other costs); (C) components with a compressed field input (latent '
                 'coefficients as grid dimensions). non-trivial = >= 4 activations (A) / any (B).')
     lines, post = [], []
-    keys = ('nin', 'alpha_lim', 'beta_lim', 'surr_lim', 'kpl', 'domains', 'norms_in', 'nsteps', 'fseed', 'vectorized', 'cost', 'failing')
+    keys = ('nin', 'alpha_lim', 'beta_lim', 'surr_lim', 'kpl', 'domains', 'norms_in', 'nsteps', 'fseed', 'vectorized', 'cost', 'failing', 'shrink')
     if only is not None:
         cases = [o.get('input', o) for o in only]
     else:
